@@ -137,7 +137,7 @@ def run(ctx):
             poly = lambda t: t[0] == "ok" and is_call(t[1], name="generate_secret_polynomial")
             ss = unwrap_newtypes(fields.get("signing_share", ("x",)))
             good = (item(fields.get("identifier", ("x",)))
-                    and is_call(ss, name="evaluate_polynomial") and item(ss[2][0]) and tfield(poly, 0)(ss[2][1])
+                    and is_call(ss, name="evaluate_polynomial") and item(strip_newtype_fields(ss[2][0])) and tfield(poly, 0)(ss[2][1])
                     and tfield(poly, 1)(fields.get("commitment", ("x",))))
         ctx.check(good, "PROV", gss.key, "share-is-f(id)-with-the-commitment",
                   "each SecretShare must be {identifier: id, signing_share: evaluate_polynomial(id, coefficients of the "
@@ -279,7 +279,7 @@ def arithmetic_kernels(ctx):
         det = ""
         if red:
             leaves = [(lambda t: t == ACC, ("scal", "v")), (lambda t: t == ITEM, ("scal", "c")),
-                      (lambda t: strip_newtype_fields(t) == ("arg", 1) and t != ("arg", 1), ("scal", "x")),
+                      (lambda t: strip_newtype_fields(t) == ("arg", 1) and (t != ("arg", 1) or "Scalar" in ep.j["inputs"][0] and "Identifier" not in ep.j["inputs"][0]), ("scal", "x")),
                       (first_of(arg(2)), ("scal", "c0"))]
             al = Alg(leaves)
             try:
